@@ -220,6 +220,26 @@ fn generate(cli: &Cli) -> (Vec<Case>, Vec<String>) {
         ("ConfCookieResponse", Pkt::ConfCookieResponse { raw: vec![1, b'k', 0] }),
         ("ClientInformationAgain", client_information("de_de")),
     ];
+    // F12: the *timeout Disconnect* half written when discovery completes (a client that neither echoes
+    // nor reads): the client is sent the same packets as when the write goes through at once. Only the
+    // clientbound side is compared: which backend calls were still made is a matter of timing here.
+    {
+        let spec = BaseSpec { name: "silent-client", intent: Intent::Login, secret: true, lat: [33_000, 0, 5_000], extras: vec![], no_target: false, ci_delay_ms: 0 };
+        let mut base = build_base(&spec, cli.seed ^ 0xfd);
+        base.client.echo = Echo::Never;
+        let brun = run(&base);
+        let off: usize = brun.client.received.iter().take_while(|r| !matches!(r.pkt, Ok(Pkt::ConfDisconnect { .. }))).map(|r| r.frame_len).sum();
+        match brun.client.received.iter().find(|r| matches!(r.pkt, Ok(Pkt::ConfDisconnect { .. }))) {
+            Some(d) => {
+                for k in (1..d.frame_len).step_by(if quick { 3 } else { 1 }) {
+                    let mut v = base.clone();
+                    v.write_plan = WritePlan { steps: vec![], stalls: vec![(off + k, Duration::from_secs(2))] };
+                    cases.push(Case { class: format!("race/discovery-completes-while-timeout-disconnect-half-written@{k}"), shape: "write/clientbound-only/discovery-completes-inside-frame/TimeoutDisconnect".into(), base: base.clone(), variant: v });
+                }
+            }
+            None => problems.push("silent-client base: no timeout Disconnect in the baseline".into()),
+        }
+    }
     // F11: frames whose announced length has zero low bits (128, 256, 16384: prefixes 80 01, 80 02,
     // 80 80 01) cut inside the length prefix: the first prefix byte(s) alone look like "length 0"
     for body in [128usize, 256, 384, 16_384] {
@@ -514,8 +534,12 @@ fn evaluate(cli: &Cli, report: &mut Report, cases: Vec<Case>) {
     let results = par_map(cases, cli.threads(), |_, c| {
         let b = run(&c.base);
         let v = run(&c.variant);
-        let tb = trace(&b);
-        let tv = trace(&v);
+        let mut tb = trace(&b);
+        let mut tv = trace(&v);
+        if c.shape.contains("/clientbound-only/") {
+            tb.retain(|l| !l.starts_with("call ") && !l.starts_with("result "));
+            tv.retain(|l| !l.starts_with("call ") && !l.starts_with("result "));
+        }
         let mut findings: Vec<(String, String, Value)> = vec![];
         // A delay that keeps a Keep Alive echo back until the next Keep Alive is due changes what
         // the client did by C07's measure (it left a Keep Alive unechoed): that outcome is C07's to
